@@ -542,6 +542,60 @@ def avdtp_stream_fsm(a: int, b: int, c: int, d: int, e: int) -> bool:
         return _fsm_run([a, b, c, d] + ([e] if e < 9 else [])) is None
 
 
+def _acceptor_run(prefix, cmd):
+    """bring the pair to CONFIGURED / OPEN / STREAMING with legal procedures, then send one raw signalling command with
+    Protocol.open/start/suspend/close (no initiator-side guard): None if the acceptor accepts it exactly when it is legal
+    in its state and a refused command leaves its state alone, else what differs"""
+    S = avdtp.State
+    with detloop.running() as loop:
+        ca, cb = _SChan(loop), _SChan(loop)
+        ca.peer, cb.peer = cb, ca
+        pa, pb = avdtp.Protocol(ca), avdtp.Protocol(cb)
+        ca.connection, cb.connection = _SConn(loop, lambda: pb), _SConn(loop, lambda: pa)
+        sink = pb.add_sink(_sbc(True))
+        src = pa.add_source(_sbc(False), avdtp.MediaPacketPump(_no_packets()))
+        t = loop.create_task(pa.discover_remote_endpoints())
+        _fsm_settle(loop)
+        proxy = list(t.result())[0]
+        t = loop.create_task(pa.create_stream(src, proxy))
+        _fsm_settle(loop)
+        stream = t.result()
+        for step in [stream.open, stream.start][:prefix]:
+            t = loop.create_task(step())
+            _fsm_settle(loop)
+            if t.exception() is not None:
+                return 'legal prefix refused'
+        before = sink.stream.state
+        if before != [S.CONFIGURED, S.OPEN, S.STREAMING][prefix]:
+            return f'sink is {before.name} after the prefix'
+        seid = sink.seid
+        co = [lambda: pa.open(seid), lambda: pa.start([seid]), lambda: pa.suspend([seid]), lambda: pa.close(seid)][cmd]()
+        t = loop.create_task(co)
+        if not _fsm_settle(loop) or not t.done():
+            return 'the command is never answered'
+        want_cls = [avdtp.Open_Response, avdtp.Start_Response, avdtp.Suspend_Response, avdtp.Close_Response][cmd]
+        accepted = t.exception() is None and isinstance(t.result(), want_cls)
+        legal = [before == S.CONFIGURED, before == S.OPEN, before == S.STREAMING, before in (S.OPEN, S.STREAMING)][cmd]
+        if accepted != legal:
+            return f'{["open", "start", "suspend", "close"][cmd]} in {before.name} {"accepted" if accepted else "refused"}'
+        after = sink.stream.state if sink.stream else S.IDLE
+        if not accepted and after != before:
+            return f'refused command moved the sink from {before.name} to {after.name}'
+        if accepted and after != [S.OPEN, S.STREAMING, S.OPEN, S.IDLE][cmd] and not (cmd == 3 and after == S.CLOSING):
+            return f'accepted command left the sink in {after.name}'
+        return None
+
+
+@harness(pre=['0 <= prefix <= 2 and 0 <= cmd <= 3'], family='avdtp-streams', twin=True, timeout=(150, 400),
+         kernels=('bumble.avdtp.Protocol.on_open_command', 'bumble.avdtp.Protocol.on_start_command', 'bumble.avdtp.Protocol.on_suspend_command', 'bumble.avdtp.Protocol.on_close_command',
+                  'bumble.avdtp.Stream.on_open_command', 'bumble.avdtp.Stream.on_start_command', 'bumble.avdtp.Stream.on_suspend_command', 'bumble.avdtp.Stream.on_close_command'),
+         bounds='acceptor side on its own: the sink is brought to CONFIGURED, OPEN or STREAMING, then ONE signalling command (Open, Start, Suspend, Close) is sent with Protocol.open/start/suspend/close, which has no initiator-side state guard: the acceptor accepts it exactly when the AVDTP state machine allows it in that state, a refused command is answered and leaves the sink state unchanged, an accepted one moves it to the state the procedure leads to')
+def avdtp_acceptor_guards_its_state(prefix: int, cmd: int) -> bool:
+    prefix, cmd = C(prefix, 0, 2), C(cmd, 0, 3)
+    with untraced():
+        return _acceptor_run(prefix, cmd) is None
+
+
 def e2_obligations(tier):
     """wide-range verification conditions over the AST of the real source (vf/e2.py, vf/e2k.py)"""
     from vf import e2k
